@@ -9,7 +9,8 @@ func isContext(t types.Type) bool {
 	}
 
 	o := named.Obj()
-	return o.Pkg().Path() == "context" && o.Name() == "Context"
+	// Pkg is nil for types declared in the universe scope (e.g., error).
+	return o.Pkg() != nil && o.Pkg().Path() == "context" && o.Name() == "Context"
 }
 
 func isError(t types.Type) bool {
